@@ -318,6 +318,10 @@ def call_builtin(eng, name, args, kwargs, st, node):
         items = eng.static_items(args[0])
         if items is not None:
             return [(st, vlist([vtuple([vint(i), x]) for i, x in enumerate(items)]))]
+        if args[0].k == 'seq' and args[0].extra.get('get') is not None and len(args) == 1:
+            g = args[0].extra['get']
+            return [(st, V('seq', extra={'len': args[0].extra['len'], 'enumerate_of': args[0].extra,
+                                         'get': (lambda eng_, i, st_, _g=g: vtuple([vint(i), _g(eng_, i, st_)]))}))]
     if name == 'zip':
         its = [eng.static_items(a) for a in args]
         if all(i is not None for i in its):
